@@ -351,7 +351,7 @@ func monC03(c *drv.Ctx) {
 	}
 
 	// (4) mutated valid encodings of every shape; every 6th case sweeps all truncation points
-	c.Stage("mutated-encodings", c.Pick(25000, 2500000), false, func(cs *drv.Case) {
+	c.Stage("mutated-encodings", c.Pick(200000, 4000000), false, func(cs *drv.Case) {
 		enc, kind := seedEncoding(cs)
 		other, _ := seedEncoding(cs)
 		m, mut := gen.Mutate(cs.R, enc, other)
